@@ -771,6 +771,32 @@ func genTxn(repo, out string) {
 		fallOff:  func(st []string) string { return "none" },
 		panicVal: "none", skipCall: isHookOrLog,
 	})
+	// oracle.readTs: the snapshot timestamp and what Begin waits for
+	emit(need("oracle", "readTs"), transSpec{
+		leanName: "readTs",
+		binders:  "(nextTs : Nat) (waitFails : Bool) (ev : List String)",
+		retType:  "Option (Nat × List String)",
+		exprMap:  map[string]string{"o.nextTs": "nextTs", "err != nil": "waitFails"},
+		state:    []string{"ev"}, stateLn: []string{"ev"}, evVar: "ev",
+		effects: map[string]string{"o.Lock()": "Lock", "o.Unlock()": "Unlock", "o.readMark.Begin(readTs)": "readMark.Begin readTs",
+			"o.commitMark.WaitForMark(context.Background(), readTs)": "commitMark.WaitForMark readTs"},
+		binds:    map[string][][2]string{"o.commitMark.WaitForMark(context.Background(), readTs)": {{"err", "()"}}},
+		ret:      func(vals []string, st []string) string { return "some (" + vals[0] + ", ev)" },
+		fallOff:  func(st []string) string { return "none" },
+		panicVal: "none", skipCall: isHookOrLog,
+	})
+	// Txn.Discard
+	emit(need("Txn", "Discard"), transSpec{
+		leanName: "discard",
+		binders:  "(discarded : Bool) (ev : List String)",
+		retType:  "Bool × List String",
+		exprMap:  map[string]string{},
+		state:    []string{"t.discarded", "ev"}, stateLn: []string{"discarded", "ev"}, evVar: "ev",
+		effects:  map[string]string{"t.db.oracle.doneRead(t)": "oracle.doneRead"},
+		ret:      func(vals []string, st []string) string { return "(discarded, ev)" },
+		fallOff:  func(st []string) string { return "(discarded, ev)" },
+		panicVal: "(discarded, ev)", skipCall: isHookOrLog,
+	})
 	sb.WriteString("end GenTxn\n")
 	if err := os.WriteFile(out, []byte(sb.String()), 0644); err != nil {
 		fatal(err)
